@@ -78,6 +78,13 @@ func micWrapper(c *Ctx, rule string, fn *ssa.Function, calc string, set bool, wa
 		pc := e.PathCond(r.Block(), nil)
 		okAtom := flow.Eq(flow.Extract(callT, 1), flow.Nil())
 		if !flow.Implies(pc, okAtom) {
+			// the error (and the result) may be produced by a module helper that receives the outcome of the calculation
+			// (`return p.setMIC(p.calculate…(…))`): what the wrapper returns is then decided inside the helper, which this
+			// rule does not read — R4.wrappers interprets the wrapper as a whole
+			if h := unknownHelper(e.Select(r.Results[ei], nil, r), nil); h != "" {
+				c.Run.Unknown(rule, rk+"/after-success", ipos(c, r), "a nil error is only returned when "+calc+" succeeded", "the returned error is produced by helper "+h)
+				continue
+			}
 			c.Run.Bad(rule, rk+"/after-success", ipos(c, r), "a nil error is only returned when "+calc+" succeeded", "path condition "+short(pc.Pretty()))
 			continue
 		}
